@@ -48,6 +48,9 @@ package engine
 // Flush: renders the pending page and hands it to the writer; refuses when
 // nothing was executed (C17); ends the session after the final output (C20).
 //@ func (*DefaultEngine).Flush
+//@   serves C18
+// templates and menu labels are looked up in the session's language (C18)
+//@   callsite (*vm.Vm).Render assert[C18] @lang vm.langInCtx(ctx, en.st)
 //@   serves C01, C17, C20
 //@   requires engOk(en)
 //@   requires[C08] vm.lockstep(en.vm)
@@ -65,6 +68,7 @@ package engine
 
 // exec: run the pending code; stop when TERMINATE is set afterwards (C06) or the code ran out (C20).
 //@ func (*DefaultEngine).exec
+//@   requires[C18] @lang fl(en, state.FLAG_LANG) || vm.langInCtx(ctx, en.st)
 //@   serves C06, C20
 //@   requires engOk(en)
 //@   requires[C08] vm.lockstep(en.vm)
@@ -115,6 +119,7 @@ package engine
 // called (C06); the engine's own VM is not involved, but Run's frame is too
 // coarse to show that, so that part is a postulate.
 //@ func (*DefaultEngine).runFirst
+//@   requires[C18] @lang fl(en, state.FLAG_LANG) || vm.langInCtx(ctx, en.st)
 //@   serves C06
 //@   requires engOk(en)
 //@   requires[C08] vm.lockstep(en.vm) && vm.depth(en.st) <= state.MaxLevel
@@ -168,6 +173,9 @@ package engine
 // Exec: refused input (bad format, or longer than the limit) is an error for
 // that request only (C17).
 //@ func (*DefaultEngine).Exec
+//@   serves C18
+// the VM runs with the session's language in its context (C18)
+//@   callsite (*engine.DefaultEngine).exec assert[C18] @lang vm.langInCtx(ctx, en.st)
 //@   serves C17
 //@   premise len(en.cfg.Root) <= 255 && !sameBacking(input, en.st.Flags)
 //@   requires en != nil && en.rs != nil && en.initd && engOk(en)
@@ -181,6 +189,6 @@ package engine
 //@   premise len(en.cfg.Root) <= 255
 //@   requires en != nil && en.initd && engOk(en)
 //@   requires[C08] vm.lockstep(en.vm)
-//@   modifies everything except f:engine., f:state.State.BitSize, f:state.State.Flags, f:render.Sizer.outputSize, count(extcalls), count(codegets), count(written)
+//@   modifies everything except f:engine., f:state.State.BitSize, f:state.State.Flags, f:render.Sizer.outputSize, f:state.State.Language, f:lang.Language., count(extcalls), count(codegets), count(written)
 //@   ensures @eng engOk(en)
 //@   ensures[C08] @lockstep vm.lockstep(en.vm)
